@@ -73,6 +73,8 @@ func (t *T) String() string {
 		t.s = t.Name + "(" + strings.Join(as, ", ") + ")"
 	case "extract":
 		t.s = as[0] + "#" + t.Name
+	case "ite":
+		t.s = "ite(" + strings.Join(as, ", ") + ")"
 	default:
 		t.s = t.K + ":" + t.Name
 	}
@@ -388,6 +390,15 @@ func evalTerm(t *T, asg map[string]*big.Int) (*big.Int, bool) {
 		return v, true
 	}
 	switch t.K {
+	case "ite":
+		c, ok := evalTerm(t.Args[0], asg)
+		if !ok {
+			return nil, false
+		}
+		if c.Sign() != 0 {
+			return evalTerm(t.Args[1], asg)
+		}
+		return evalTerm(t.Args[2], asg)
 	case "index":
 		// a lookup in a constant table with a key that evaluates
 		if tab := tableOfTerm(t.Args[0]); tab != nil {
@@ -544,4 +555,89 @@ func wrapToType(x *big.Int, t types.Type) *big.Int {
 	r := new(big.Int).Sub(x, lo)
 	r.Mod(r, span)
 	return r.Add(r, lo)
+}
+
+// gateTerm replaces merged values (phis the path did not resolve) by if-then-else terms over the branch
+// condition that decides which incoming value arrives, where the merge is a two-way diamond or triangle
+// under its immediate dominator. The result is a function of the inputs again and can be evaluated.
+func gateTerm(t *T, depth int) *T {
+	if t == nil || depth > 8 {
+		return t
+	}
+	if t.K == "phi" {
+		ph, ok := t.V.(*ssa.Phi)
+		if !ok || len(ph.Edges) != 2 {
+			return t
+		}
+		m := ph.Block()
+		d := m.Idom()
+		if d == nil {
+			return t
+		}
+		iff, ok := d.Instrs[len(d.Instrs)-1].(*ssa.If)
+		if !ok {
+			return t
+		}
+		side := func(p *ssa.BasicBlock) int {
+			if p == d {
+				for i, s := range d.Succs {
+					if s == m {
+						return i
+					}
+				}
+				return -1
+			}
+			for i, s := range d.Succs {
+				if s != m && s.Dominates(p) {
+					return i
+				}
+			}
+			return -1
+		}
+		s0, s1 := side(m.Preds[0]), side(m.Preds[1])
+		if s0 < 0 || s1 < 0 || s0 == s1 {
+			return t
+		}
+		env := newTermEnv()
+		a, b := gateTerm(env.Term(ph.Edges[0]), depth+1), gateTerm(env.Term(ph.Edges[1]), depth+1)
+		if s0 == 1 {
+			a, b = b, a // a: the value on the true branch
+		}
+		cond := gateTerm(env.Term(iff.Cond), depth+1)
+		return &T{K: "ite", Args: []*T{cond, a, b}, Typ: t.Typ, V: t.V}
+	}
+	if len(t.Args) == 0 {
+		return t
+	}
+	changed := false
+	args := make([]*T, len(t.Args))
+	for i, a := range t.Args {
+		args[i] = gateTerm(a, depth+1)
+		if args[i] != a {
+			changed = true
+		}
+	}
+	if !changed {
+		return t
+	}
+	c := *t
+	c.Args = args
+	c.s = ""
+	c.V = nil
+	return &c
+}
+
+func hasKind(t *T, k string) bool {
+	if t == nil {
+		return false
+	}
+	if t.K == k {
+		return true
+	}
+	for _, a := range t.Args {
+		if hasKind(a, k) {
+			return true
+		}
+	}
+	return false
 }
